@@ -53,7 +53,7 @@ def _structure_strategy(tier):
     nmax = 8 if tier == "quick" else 14
     return st.fixed_dictionaries(
         {
-            "atom": ga.atom(nmin=1, nmax=nmax, small=False),
+            "atom": ga.atom(nmin=1, nmax=nmax, small=False, orders=("asc", "asc", "desc", "perm")),
             "seed2": st.integers(0, 2**31),
             "g": st.lists(st.floats(-2.0, 2.0), min_size=3, max_size=3),
             "gexp": st.floats(0.1, 2.0),
@@ -121,7 +121,9 @@ def body_structure(case, ctx):
     degs, amb = ga.expected_degrees(desc)
 
     ctx.cls(method, "route:" + route, "n:" + ("1" if n == 1 else "2-4" if n <= 4 else "5+"))
-    ctx.cls("r0:" + ("zero" if r[0] == 0.0 else "tiny" if r[0] < 1e-8 else "small" if r[0] < 0.05 else "ordinary"))
+    rmin_ = float(np.min(r))
+    ctx.cls("r0:" + ("zero" if rmin_ == 0.0 else "tiny" if rmin_ < 1e-8 else "small" if rmin_ < 0.05 else "ordinary"))
+    ctx.cls("nodes:" + str(case["atom"].get("node_order", "asc") if isinstance(case.get("atom"), dict) else "asc"))
     ctx.cls("centre:" + ("none" if c_in is None else "zero" if cn == 0.0 else "nonzero"))
     ctx.cls("rotate:" + ("0" if rot == 0 else "small" if rot <= 1000 else "max" if rot >= 2**32 - n - 2 else "large"))
     ctx.cls("degrees:" + ("mixed" if len(set(degs)) > 1 else "uniform"))
